@@ -76,6 +76,18 @@ func TestC16_TokenFactoryModel(t *testing.T) {
 			return rapid.SampledFrom(otherDenoms).Draw(t, "otherDenom")
 		}
 		_ = pickDenom
+		// the current admin acts half of the time (so that histories with several successful steps on one denom - mint,
+		// hand-over, mint and burn by the new admin - are common), anybody otherwise
+		pickSender := func(t *rapid.T, d string) chain.Actor {
+			if md := model[d]; md != nil && rapid.Bool().Draw(t, "senderIsAdmin") {
+				for _, a := range acts {
+					if a.Addr.String() == md.admin {
+						return a
+					}
+				}
+			}
+			return rapid.SampledFrom(acts).Draw(t, "sender")
+		}
 		otherDenoms = append(otherDenoms, chain.BondDenom, "factory/"+acts[0].Addr.String()+"/never-created", "factory/notanaddress/foo", "unknown", "factory/"+acts[1].Addr.String()+"/foo/extra")
 		amounts := rapid.OneOf(
 			rapid.Custom(func(t *rapid.T) *big.Int { return big.NewInt(rapid.Int64Range(1, 1000).Draw(t, "amtSmall")) }),
@@ -125,8 +137,8 @@ func TestC16_TokenFactoryModel(t *testing.T) {
 			"create":  create,
 			"create2": create,
 			"mint": func(t *rapid.T) {
-				s := rapid.SampledFrom(acts).Draw(t, "sender")
 				d := pickDenom(t)
+				s := pickSender(t, d)
 				a := amounts.Draw(t, "amount")
 				msg := &tftypes.MsgMint{Amount: sdk.Coin{Denom: d, Amount: sdkmath.NewIntFromBigInt(a)}, Metadata: chain.MD(s)}
 				ok := deliver(t, s, msg)
@@ -151,8 +163,8 @@ func TestC16_TokenFactoryModel(t *testing.T) {
 				}
 			},
 			"burn": func(t *rapid.T) {
-				s := rapid.SampledFrom(acts).Draw(t, "sender")
 				d := pickDenom(t)
+				s := pickSender(t, d)
 				var a *big.Int
 				if rapid.Bool().Draw(t, "burnWithinBalance") && getBal(d, s).Sign() > 0 {
 					a = new(big.Int).Div(getBal(d, s), big.NewInt(int64(rapid.IntRange(1, 3).Draw(t, "div"))))
@@ -188,8 +200,8 @@ func TestC16_TokenFactoryModel(t *testing.T) {
 				}
 			},
 			"changeAdmin": func(t *rapid.T) {
-				s := rapid.SampledFrom(acts).Draw(t, "sender")
 				d := pickDenom(t)
+				s := pickSender(t, d)
 				na := rapid.SampledFrom([]string{acts[0].Addr.String(), acts[1].Addr.String(), acts[2].Addr.String(), "", "garbage"}).Draw(t, "newAdmin")
 				msg := tftypes.NewMsgChangeAdmin(s.Addr.String(), d, na)
 				ok := deliver(t, s, msg)
@@ -220,8 +232,8 @@ func TestC16_TokenFactoryModel(t *testing.T) {
 				}
 			},
 			"setMetadata": func(t *rapid.T) {
-				s := rapid.SampledFrom(acts).Draw(t, "sender")
 				d := pickDenom(t)
+				s := pickSender(t, d)
 				name := fmt.Sprintf("name-%d", rapid.IntRange(0, 99).Draw(t, "name"))
 				meta := banktypes.Metadata{Base: d, Display: d, Name: name, Symbol: "SYM", DenomUnits: []*banktypes.DenomUnit{{Denom: d, Exponent: 0}}}
 				msg := tftypes.NewMsgSetDenomMetadata(s.Addr.String(), meta)
